@@ -126,7 +126,7 @@ def run(ctx):
 
     # 3b. the same sequences under other refinements of "offset": an abstract offset is a run of `scale` bytes starting
     # at `base` (ranges straddling 2^8, 2^16, 2^32: offsets whose keys differ in more than their last byte)
-    refinements = [(250, 3), (65530, 7)] if not ctx.thorough else [(250, 3), (65530, 7), ((1 << 32) - 9, 5), (254, 1)]
+    refinements = [(250, 3), (65530, 7), ((1 << 32) - 9, 5)] if not ctx.thorough else [(250, 3), (65530, 7), ((1 << 32) - 9, 5), (254, 1)]
     for k, (b, sc) in enumerate(refinements):
         src = rbeh if (ctx.thorough or k == 0) else beh
         ref, real = _replay(ctx, src, "ref%d" % k, 8 if ctx.thorough else 1, ["--base", str(b), "--scale", str(sc)])
